@@ -3,6 +3,7 @@ import Proofs.C20Seq
 import Proofs.C20Spec
 import Proofs.C20Ctx
 import Proofs.C20Conc
+import Proofs.C20Read
 /-!
   C20 — an interrupt cancels exactly the innermost running evaluation, safely.
 
@@ -25,6 +26,9 @@ import Proofs.C20Conc
        of commit 243f567c a schedule exists on which the goroutine indexes past a truncated slice);
    (e) every interleaving of the locked two-thread machine is equivalent to a sequential run —
        `locked_linearizable`; it cannot deadlock — `locked_no_deadlock` (Proofs/C20Conc.lean).
+   (f) an interrupt ends a call blocked in the (context-aware) reader of the innermost evaluation, the
+       only other exit is data — `interrupt_unblocks_reader`, `blocked_exits`; a reader used without
+       the ctxreadseeker wrapper stays blocked — `plain_reader_only_data`, `plain_reader_stays_blocked`.
   The Go scheduler and memory model are outside the logic (the mutex is modelled as an atomic
   test-and-set, every shared access as one atomic step); the race detector run of the harness is the
   runtime monitor for that part.
@@ -307,6 +311,76 @@ theorem locked_no_deadlock (prog : List Op) (hs : StopLast prog) (sched : List T
   rw [cstep_eq _ c hnp, cstep_eq _ c hnp]
   exact progress c hmi hwork
 
+/-! ### (f) an evaluation blocked in a read of its input -/
+
+/-- An interrupt gets a blocked reader out: in every reachable state of the machine with readers
+    (any mix of stack operations, interrupts, reads and data arrivals), if the interpreter has not
+    been stopped and a call is blocked on a context-aware reader (`ctxreadseeker`, what `open` uses)
+    bound to the context `c` of the evaluation on top of the stack — the evaluation that is
+    executing the read — then one interrupt ends the blocked state with the cancellation result,
+    `c` has Err() ≠ nil, and every older (enclosing) context keeps its Err(). -/
+theorem interrupt_unblocks_reader (ops : List ROp) (c : Nat) :
+    let s := rrun ops
+    s.st.stopped = false → s.blocked = some ⟨c, .ctxAware⟩ → top s.st = some c →
+    let s' := rstep s (.ev .interrupt)
+    s'.blocked = none ∧ s'.results = s.results ++ [.cancelled] ∧ s'.st.ctxs.err c = true ∧
+    ∀ j, j < c → s'.st.ctxs.err j = s.st.ctxs.err j := by
+  intro s hs hb ht s'
+  have hinv : SInv s.st := rrun_inv ops
+  obtain ⟨herr, hkeep⟩ := interrupt_top hinv hs c ht
+  have hs' : s' = wake { s with st := step .fixed s.st .interrupt } := rfl
+  have hw : s' = { s with st := step .fixed s.st .interrupt, blocked := none, results := s.results ++ [.cancelled] } := by
+    rw [hs']; unfold wake; simp only [hb]
+    rw [if_pos ⟨trivial, herr⟩]
+  rw [hw]
+  exact ⟨rfl, rfl, herr, hkeep⟩
+
+/-- the blocked state has only these exits: the underlying call returns, or — for a context-aware
+    reader only — an interrupt -/
+theorem blocked_exits (s : RSt) (b : Blocked) (op : ROp) (hb : s.blocked = some b)
+    (hn : (rstep s op).blocked = none) : op = .data ∨ (op = .ev .interrupt ∧ b.kind = .ctxAware) := by
+  cases op with
+  | data => exact Or.inl rfl
+  | read k c => simp [rstep, hb] at hn
+  | ev o =>
+    cases o with
+    | interrupt =>
+      right; refine ⟨rfl, ?_⟩
+      simp only [rstep, wake, hb] at hn
+      split at hn
+      · rename_i h; exact h.1
+      · simp [hb] at hn
+    | push p => simp [rstep, hb] at hn
+    | finish i => simp [rstep, hb] at hn
+    | stop => simp [rstep, hb] at hn
+
+/-- a reader used without the context wrapper stays blocked whatever is cancelled: only data gets it out -/
+theorem plain_reader_only_data (s : RSt) (c : Nat) (op : ROp) (hb : s.blocked = some ⟨c, .plain⟩)
+    (hop : op ≠ .data) : (rstep s op).blocked = some ⟨c, .plain⟩ := by
+  cases op with
+  | data => exact absurd rfl hop
+  | read k c' => simp [rstep, hb]
+  | ev o =>
+    cases o with
+    | interrupt => simp [rstep, wake, hb]
+    | push p => simp [rstep, hb]
+    | finish i => simp [rstep, hb]
+    | stop => simp [rstep, hb]
+
+/-- the witness for seeded change S2-C20-2 (`io.ReadAll(f)` instead of
+    `io.ReadAll(ctxreadseeker.New(ctx, …))` for non-seekable input): evaluation 0 encloses evaluation 1,
+    which blocks reading its input; the interrupt cancels context 1 and leaves 0 alone in both cases,
+    but the plain reader is still blocked afterwards (fq hangs until the producer writes or closes),
+    the context-aware one has returned the cancellation -/
+theorem plain_reader_stays_blocked :
+    let pre : List ROp := [.ev (.push none), .ev (.push (some 0))]
+    (rrun (pre ++ [.read .plain 1, .ev .interrupt])).blocked = some ⟨1, .plain⟩ ∧
+    (rrun (pre ++ [.read .plain 1, .ev .interrupt])).st.obs.errs = [false, true] ∧
+    (rrun (pre ++ [.read .ctxAware 1, .ev .interrupt])).blocked = none ∧
+    (rrun (pre ++ [.read .ctxAware 1, .ev .interrupt])).results = [.cancelled] ∧
+    (rrun (pre ++ [.read .ctxAware 1, .ev .interrupt])).st.obs.errs = [false, true] := by
+  decide
+
 /-! ### non-vacuity: the hypotheses of the theorems above are satisfiable by non-trivial values -/
 
 /-- a history with nesting, an out-of-order finish and an interrupt: 3 evaluations, #1 and #2 ended by
@@ -358,5 +432,19 @@ example :
     c.epc = .idle ∧ c.tpc = .wait ∧ c.prog = [] ∧ c.pending = 0 ∧
     c.sh = run .fixed [.push none, .finish 0, .interrupt] := by
   decide
+
+/-- interrupt_unblocks_reader: its three hypotheses hold together in a reachable state (not stopped,
+    a context-aware read of the innermost evaluation 1 is blocked, 1 is on top of the stack), with an
+    enclosing evaluation 0 that must keep its context -/
+example :
+    let s := rrun [.ev (.push none), .ev (.push (some 0)), .read .ctxAware 1]
+    s.st.stopped = false ∧ s.blocked = some ⟨1, .ctxAware⟩ ∧ top s.st = some 1 := by decide
+
+/-- blocked_exits: both exits occur -/
+example :
+    (rrun [.ev (.push none), .read .ctxAware 0, .data]).results = [.data] ∧
+    (rrun [.ev (.push none), .read .ctxAware 0, .ev .interrupt]).results = [.cancelled] ∧
+    -- a read on an already cancelled context does not block at all (callWait's first select)
+    (rrun [.ev (.push none), .ev .interrupt, .read .ctxAware 0]).blocked = none := by decide
 
 end Props.C20
